@@ -244,6 +244,11 @@ func checkpoint(s Subject, o *Oracle) ([]byte, bool) {
 		o.Fail("C11", "marshal-differs", "ToJSON %s differs from json.Marshal(container) %s", b, mb)
 		return nil, false
 	}
+	if !isHashKind(s.Kind()) && string(b) != string(mb) {
+		// "identical": for the ordered kinds byte for byte (json.Marshal compacts and HTML-escapes what MarshalJSON returns)
+		o.Fail("C11", "marshal-differs-bytes", "ToJSON %s and json.Marshal(container) %s denote the same document but are not identical", b, mb)
+		return nil, false
+	}
 	return b, true
 }
 
